@@ -48,6 +48,8 @@ pub struct Execution {
     pub world: World,
     /// first request id of the concurrent phase
     pub log_start: usize,
+    /// (step, task, what) for replay output
+    pub trace: Vec<String>,
 }
 
 #[derive(Clone)]
@@ -144,6 +146,7 @@ impl SchedScenario {
         let mut deadlock = false;
         let mut livelock = false;
         let mut panic: Option<String> = None;
+        let mut trace: Vec<String> = vec![];
         let max_steps = 4000;
         #[derive(Clone, Copy, PartialEq)]
         enum Act {
@@ -200,9 +203,13 @@ impl SchedScenario {
             let act = acts[c];
             step_ctr.set(step_ctr.get() + 1);
             let t = match act {
-                Act::Poll(t) => t,
+                Act::Poll(t) => {
+                    trace.push(format!("step {}: poll T{} ({} actions enabled)", step_ctr.get(), t, acts.len()));
+                    t
+                }
                 Act::Complete(t, id) => {
                     sim.borrow_mut().complete(id);
+                    trace.push(format!("step {}: complete #{} and poll T{} ({} actions enabled)", step_ctr.get(), id, t, acts.len()));
                     t
                 }
             };
@@ -265,6 +272,7 @@ impl SchedScenario {
             steps,
             world,
             log_start,
+            trace,
         })
     }
 }
